@@ -44,6 +44,11 @@ def _work(job):
     faulthandler.dump_traceback_later(chunk_wall, exit=True)
     import resource
     import signal
+    if not getattr(sys.stdout, "_verif_null", False):
+        # the library prints remarks ("EBLIFParser: Index was: ...") while it reads: workers report through their
+        # return value only, their standard output is not part of any verdict
+        sys.stdout = open(os.devnull, "w")
+        sys.stdout._verif_null = True
     try:
         resource.setrlimit(resource.RLIMIT_AS, (8 << 30, 8 << 30))
     except (ValueError, OSError):
